@@ -1,5 +1,5 @@
 """C20 — snapshot archives: exact round trip, corruption always detected."""
-import json, os, collections
+import json, os, collections, time, gzip, base64
 import vlib
 from vlib import coq_bool, coq_list, coq_N, coq_str
 
@@ -39,10 +39,12 @@ def coq_bytes_lit(b):
 
 class Interner:
     """Byte strings of a case file are written once (Definition dK) and referred to by name: a
-    damaged archive repeats most byte strings of the intact one, several times per case."""
+    damaged archive repeats most byte strings of the intact one, several times per case.  A string
+    that differs from a named one in one byte, or is a prefix of one, is written as such
+    (Run.C20.setb / Run.C20.pre): the case files are dominated by the cost of number literals."""
 
     def __init__(self):
-        self.names, self.defs = {}, []
+        self.names, self.defs, self.bylen, self.strs = {}, [], {}, {}
 
     def __call__(self, b):
         if isinstance(b, str):
@@ -50,10 +52,39 @@ class Interner:
         if len(b) < 8:
             return coq_bytes_lit(b)
         n = self.names.get(b)
+        if n is not None:
+            return n
+        n = "d%d" % len(self.names)
+        self.names[b] = n
+        body = None
+        for other in self.bylen.get(len(b), [])[:12]:
+            diff = [i for i in range(len(b)) if b[i] != other[i]]
+            if len(diff) == 1:
+                body = "setb %s %d%%N %d%%N" % (self.names[other], diff[0], b[diff[0]])
+                break
+        if body is None:
+            for other in self.anchors():
+                if len(other) > len(b) and other.startswith(b):
+                    body = "pre %s %d%%N" % (self.names[other], len(b))
+                    break
+        if body is None:
+            body = coq_bytes_lit(b)
+            self.bylen.setdefault(len(b), []).append(b)     # only literal strings serve as references
+        self.defs.append("Definition %s : bytes := %s." % (n, body))
+        return n
+
+    def anchors(self):
+        return [x for l in self.bylen.values() for x in l[:4]]
+
+    def name(self, s):
+        """member / file names"""
+        if isinstance(s, str):
+            s = s.encode("utf-8")
+        n = self.strs.get(s)
         if n is None:
-            n = "d%d" % len(self.names)
-            self.names[b] = n
-            self.defs.append("Definition %s : bytes := %s." % (n, coq_bytes_lit(b)))
+            n = "s%d" % len(self.strs)
+            self.strs[s] = n
+            self.defs.append("Definition %s : string := bs %s." % (n, coq_bytes_lit(s)))
         return n
 
 
@@ -61,7 +92,7 @@ coq_bytes = Interner()     # replaced per shard
 
 
 def members_to_coq(ms):
-    return coq_list(["Member %s %s %s" % (coq_str(m["name"].encode("utf-8")), coq_bytes(m["data"]), coq_bool(m["intact"]))
+    return coq_list(["Member %s %s %s" % (coq_bytes.name(m["name"]), coq_bytes(m["data"]), coq_bool(m["intact"]))
                      for m in ms])
 
 
@@ -70,7 +101,7 @@ def case_to_coq(c):
     dec = coq_list(["(%s, %s, %s)" % (coq_N(d["cur"]), coq_bytes(d["data"]),
                                      ("Some %s" % coq_N(d["new"])) if d["ok"] else "None") for d in c["dec"]])
     lines = coq_list([("Some (%s, %s)" % (coq_bytes(l["pre"]) if l["known"] else SENTINEL,
-                                          coq_str(bytes.fromhex(l["file"])))) if l["ok"] else "None"
+                                          coq_bytes.name(bytes.fromhex(l["file"])))) if l["ok"] else "None"
                       for l in c["lines"]])
     e = c["expect"]
     exp = ("Ok (%s, %s)" % (coq_N(e["meta"]), coq_bytes(e["state"]))) if e["ok"] else "Err (%s)" % ERR[e["err"]]
@@ -86,8 +117,8 @@ def shard_text(cases, bases):
     global coq_bytes
     coq_bytes = Interner()
     used = sorted(set(c["base"] for c in cases))
-    defs = "\n".join("Definition base%d : list member := %s." % (b, members_to_coq(bases[b])) for b in used)
-    body = ";\n  ".join(case_to_coq(c) for c in cases)
+    defs = "\n".join(["Definition base%d : list member := %s." % (b, members_to_coq(bases[b])) for b in used])
+    body = ";\n  ".join([case_to_coq(c) for c in cases])
     return ("From Verif Require Import Base.Prelude Archive.Model Run.C20.\n%s\n%s\n"
             "Definition cases : list case := [\n  %s\n].\n"
             "Definition M := Eval vm_compute in mismatches cases.\nPrint M.\n" % ("\n".join(coq_bytes.defs), defs, body))
@@ -116,7 +147,9 @@ def kind_class(c):
 
 
 def run(ctx):
+    stage, t0 = {}, time.time()
     info, ok = vlib.proof_stage(ctx, PROP_FILE, ["Run/C20.v"])
+    stage["proof_s"] = round(time.time() - t0, 1)
     cov = dict(info)
     cov["trusted_base"] = vlib.STD_TRUSTED + [
         "Section hypotheses of Properties/C20.v, each passed only to the theorems that need it: SHA-256 treated as injective (collision freedom, H_inj); encoding/json on raft.SnapshotMeta: round trip (dec_enc), failure on empty input (dec_empty), non-empty encoding (enc_nonempty), an encoding does not split into two decodable pieces (dec_pieces); bufio.Scanner+fmt.Sscanf: round trip and no scanner error ON THE TWO LINES THE WRITER WRITES (parse_print, scan_print), no line from empty input (parse_empty). All but H_inj are tested directly against the Go standard library on every run (coverage.hypothesis_tests); dec_enc is FALSE for metadata holding a string that is not valid UTF-8 (open finding)",
@@ -128,12 +161,15 @@ def run(ctx):
         cov.update({"evaluations": 0, "distinct_nontrivial": 0, "rule": "proof stage failed", "samples": []})
         return ctx.finish(cov, assumptions)
 
+    t0 = time.time()
     binp = vlib.go_build("archive")
     out = os.path.join(ctx.workdir, "cases.jsonl")
     rc, o = vlib.sh([binp, "-seed", str(ctx.seed), "-tier", ctx.tier, "-out", out], timeout=6000)
     if rc != 0:
         raise vlib.BuildError("harness run failed: " + o[-2000:])
 
+    stage["harness_build_and_run_s"] = round(time.time() - t0, 1)
+    t0 = time.time()
     total = 0
     kinds = collections.Counter()
     verdicts = collections.Counter()
@@ -150,12 +186,8 @@ def run(ctx):
         if c["type"] == "summary":
             summary = c
             continue
-        total += 1
-        kinds[kind_class(c)] += 1
-        verdicts["ok" if c["expect"]["ok"] else ERR.get(c["expect"]["err"], "unrecognised")] += 1
-        if c["expect"]["ok"] and not c["kind"].startswith("identity"):
-            accepted_damaged += 1
-            accepted_class[c.get("class", "?")] += 1
+        # only the archives Coq evaluates and the oracle failures are written out one by one; the
+        # harness counts all of them (summary.stats)
         if c.get("write"):
             intact["%s/ord=%s" % ("rewritten-by-harness" if c["write"].get("forced") else "written-by-consul",
                                   "meta-first" if c["write"]["ord"] else "state-first")] += 1
@@ -163,12 +195,28 @@ def run(ctx):
             coq_cases.append(c)
         if c["oracle"]:
             oracle_fail.append(c)
+    if not summary:
+        raise vlib.BuildError("harness wrote no summary line")
+    for k, v in summary.get("stats", {}).items():
+        if k == "total":
+            total = v
+        elif k == "accepted_damaged":
+            accepted_damaged = v
+        elif k.startswith("kind:"):
+            kinds[k[5:]] = v
+        elif k.startswith("class:"):
+            accepted_class[k[6:]] = v
+        elif k.startswith("verdict:"):
+            e = k[8:]
+            verdicts["ok" if e == "ok" else ERR.get(int(e), "unrecognised")] = v
 
     # ---- model vs implementation, corruption relation, writer: inside Coq ----
-    per = 400
+    per = 1000
     shards = [coq_cases[i:i + per] for i in range(0, len(coq_cases), per)]
     res = vlib.coq_run_shards(PROP, [shard_text(s, bases) for s in shards],
                               jobs=int(os.environ.get("VERIF_JOBS", "12")))
+    stage["coq_case_files"] = len(shards)
+    stage["coq_cases_s"] = round(time.time() - t0, 1)
     bad = []          # (case, verdict bits)
     for s, (okk, idx, raw) in zip(shards, res):
         if not okk:
@@ -202,11 +250,12 @@ def run(ctx):
         ctx.violation({"kind": "restore-phase-skipped", "detail": rst["skipped"]}, found_input=False)
     hyp = (summary.get("hypotheses") or {}).get("counts", {})
     hyp_fail = {k: v for k, v in hyp.items() if "FAIL" in k}
-    utf8_known = vlib.match_known(PROP, {"kind": "roundtrip-metadata-differs", "cause": "invalid-utf8",
-                                         "read_back": "invalid-bytes-replaced-by-U+FFFD"})
     for k, v in hyp_fail.items():
-        if k == "dec_enc/FAIL-invalid-utf8-replaced" and utf8_known:
-            continue          # the open finding, reported through the round-trip oracle above
+        if k == "dec_enc/FAIL-invalid-utf8-replaced":
+            # a fact about encoding/json, whatever consul does with it: dec_enc holds exactly for metadata
+            # whose strings are valid UTF-8 (C20_roundtrip_partial / C20_roundtrip_refuted say what follows);
+            # what consul makes of such metadata is judged by the round-trip oracle above
+            continue
         ctx.violation({"kind": "hypothesis-refuted-by-stdlib", "hypothesis": k, "count": v,
                        "theorem": "Section hypothesis of Properties/C20.v"}, found_input=False)
 
@@ -224,7 +273,9 @@ def run(ctx):
                        "theorem": "Run.C20.verdict (1 model read_gz = implementation; 2 glue tables complete; 4 view within corruptb/faultb of the intact view; 8 intact view = model write; 16 dec_enc)",
                        "verdict_bits": [name for b, name in VERDICT_BITS.items() if v & b],
                        "unexplained_cases": len(unexplained),
-                       "first": {k: c.get(k) for k in ("kind", "gz", "archive", "members", "term", "trailer", "hdr", "lines", "scan", "write", "expect", "base")},
+                       "archive": c.get("archive") or (gzip.decompress(base64.b64decode(c["archive_gz"])).hex() if c.get("archive_gz") else ""),
+                       "gz": c["gz"],
+                       "first": {k: c.get(k) for k in ("kind", "gz", "members", "term", "trailer", "hdr", "lines", "scan", "write", "expect", "base")},
                        "base_view": bases.get(c["base"])},
                       found_input=False)
 
@@ -255,5 +306,6 @@ def run(ctx):
         "samples": [{"kind": c["kind"], "gz": c["gz"], "members": [(m["name"], len(m["data"]) // 2, m["intact"]) for m in c["members"]],
                      "term": c["term"], "expect": c["expect"]} for c in coq_cases[:3] + coq_cases[-3:]],
         "exhaustive": False,
+        "stage_seconds": stage,
     })
     return ctx.finish(cov, assumptions)
